@@ -340,26 +340,40 @@ mod k {
         kani::cover!(true, "every call returned");
     }
 
-    /// VERIF: {"p":"C19","tier":"quick","fns":["config::parse_i64","config::parse_num","config::parse_string","config::parse_boolean","config::parse_duration","config::parse_string_ip","config::parse_string_ip4","config::parse_string_ip6","config::parse_string_hwaddr","config::parse_string_prefix","config::parse_string_prefix4","config::parse_string_prefix6","config::parse_string_sockaddr","config::str_ip","config::str_duration"],"bounds":"every typed parser on Null, and every typed parser except hwaddr/prefix/sockaddr on the string \"x\"","oracle":"Null => Ok(None) everywhere; \"x\" => Ok(Some) for parse_string, Err(InvalidConfig) for the others; never a panic","stubs":["alloc::fmt::format -> empty string (message text only)"],"covers":1,"unwind":8}
+    /// VERIF: {"p":"C19","tier":"quick","fns":["config::parse_i64","config::parse_num","config::parse_string","config::parse_boolean","config::parse_duration","config::parse_string_ip","config::parse_string_ip4","config::parse_string_ip6","config::parse_string_hwaddr","config::parse_string_prefix","config::parse_string_prefix4","config::parse_string_prefix6","config::parse_string_sockaddr","config::str_ip","config::str_duration"],"bounds":"every typed parser (primitive and composed) on Null","oracle":"Ok(None) everywhere; never a panic","stubs":["alloc::fmt::format -> empty string (message text only)"],"covers":1,"unwind":8}
     #[kani::proof]
     #[kani::unwind(8)]
     #[kani::stub(alloc::fmt::format, empty_format)]
-    fn c19_scalar_parsers_null_and_string() {
+    fn c19_scalar_parsers_null() {
         scalar_parsers_on(KIND_NULL, true);
+        kani::cover!(true, "every call returned");
+    }
+
+    /// VERIF: {"p":"C19","tier":"quick","fns":["config::parse_i64","config::parse_num","config::parse_string","config::parse_boolean","config::parse_duration","config::parse_string_ip","config::parse_string_ip4","config::parse_string_ip6","config::str_ip","config::str_duration"],"bounds":"every typed parser except hwaddr/prefix/sockaddr (str::split, not reachable) on the string \"x\"","oracle":"Ok(Some) for parse_string, Err(InvalidConfig) for the others; never a panic","stubs":["alloc::fmt::format -> empty string (message text only)"],"covers":1,"unwind":8}
+    #[kani::proof]
+    #[kani::unwind(8)]
+    #[kani::stub(alloc::fmt::format, empty_format)]
+    fn c19_scalar_parsers_string() {
         scalar_parsers_on(KIND_STR, true);
         kani::cover!(true, "every call returned");
     }
 
-    /// VERIF: {"p":"C19","tier":"quick","fns":["config::parse_i64","config::parse_num::<u8>","config::parse_num::<u32>","config::parse_string","config::parse_boolean","config::type_to_name"],"bounds":"each primitive typed parser on a collection where a scalar is expected, one after the other: `[~]`, `[<any int>, \"\"]`, `[[true]]`, `[\"a\",\"b\"]` and the empty mapping; every sequence NON-empty","oracle":"Err(InvalidConfig); never a panic","stubs":["alloc::fmt::format -> empty string (message text only)","std::hash::RandomState::new -> fixed keys (creating the empty Hash)"],"covers":1,"unwind":8}
+    /// VERIF: {"p":"C19","tier":"quick","fns":["config::parse_i64","config::parse_num::<u8>","config::parse_num::<u32>","config::parse_string","config::parse_boolean","config::type_to_name"],"bounds":"each primitive typed parser on the NON-empty sequence `[~]` and on the empty mapping where a scalar is expected","oracle":"Err(InvalidConfig); never a panic","stubs":["alloc::fmt::format -> empty string (message text only)","std::hash::RandomState::new -> fixed keys (creating the empty Hash)"],"covers":1,"unwind":8}
     #[kani::proof]
     #[kani::unwind(8)]
     #[kani::stub(alloc::fmt::format, empty_format)]
     #[kani::stub(std::hash::RandomState::new, fixed_random_state)]
     fn c19_scalar_parsers_wrong_collection() {
         scalar_parsers_on(KIND_ARR_NULL, false);
-        scalar_parsers_on(KIND_ARR_MIXED, false);
         scalar_parsers_on(KIND_HASH_EMPTY, false);
-        scalar_parsers_on(KIND_ARR_NESTED, false);
+        kani::cover!(true, "every call returned");
+    }
+
+    /// VERIF: {"p":"C19","tier":"quick","fns":["config::parse_i64","config::parse_num::<u8>","config::parse_num::<u32>","config::parse_string","config::parse_boolean","config::type_to_name"],"bounds":"each primitive typed parser on the NON-empty sequence `[\"a\",\"b\"]` where a scalar is expected","oracle":"Err(InvalidConfig); never a panic","stubs":["alloc::fmt::format -> empty string (message text only)"],"covers":1,"unwind":8}
+    #[kani::proof]
+    #[kani::unwind(8)]
+    #[kani::stub(alloc::fmt::format, empty_format)]
+    fn c19_scalar_parsers_wrong_sequence() {
         scalar_parsers_on(KIND_ARR_STRS, false);
         kani::cover!(true, "every call returned");
     }
